@@ -1,10 +1,13 @@
 #!/bin/bash
 # usage: tools/seedtest.sh <patch.diff> <PROP> [<PROP>...]
-# applies a seeded change to /repo, runs the given checks, and undoes it straight afterwards
+# applies a seeded change to /repo, runs the given checks, and undoes it straight afterwards;
+# the evidence files (which describe the unchanged tree) are put back as they were
 set -u
 patch="$(readlink -f "$1")"; shift
-git -C /repo apply "$patch" || { echo "patch does not apply"; exit 2; }
-trap 'git -C /repo checkout -- . ; git -C /repo clean -fdq memcrs/tests 2>/dev/null' EXIT
+bak=$(mktemp -d)
+cp -a /verif/evidence "$bak/evidence"
+git -C /repo apply "$patch" || { echo "patch does not apply"; rm -rf "$bak"; exit 2; }
+trap 'git -C /repo checkout -- . ; git -C /repo clean -fdq memcrs/tests 2>/dev/null; rm -rf /verif/evidence; mv "$bak/evidence" /verif/evidence; rm -rf "$bak"' EXIT
 for p in "$@"; do
   out=$(cd /verif && ./check "$p" 2>&1 | grep -E "VIOLATION|held|FAILED" | head -4)
   echo "== $p: $out"
